@@ -40,6 +40,7 @@ INVARIANT PrivMatchesPub
 INVARIANT RecipientsEntitled
 INVARIANT NoDecapFailure
 INVARIANT PendingOnCurrentEpoch
+INVARIANT PendingAppliedOnItsBase
 INVARIANT ProvidersAgree
 INVARIANT RetentionExact
 INVARIANT NoGenerationReuse
